@@ -31,6 +31,25 @@ CHECKS = {
     },
 }
 
+CHECKS["C08"] = {
+    "script": "c08.py", "category": "exploration", "engine": "enum",
+    "technique": "bounded-exhaustive enumeration of SDP documents from a grammar on the real stripping code against an independent net/netip classifier",
+    "text": "All single candidates (40 boundary addresses of every RFC range x 4 candidate types x 3 layouts x 1-2 media sections), all ordered address pairs, triples over a reduced alphabet; IsLocal vs reference for every a.b.0.1/a.b.255.254 and xx00::1; every truncation/line deletion/duplication and token soups for totality; the client's Negotiate call site with keepLocalAddresses both ways.",
+    "design_ref": "§3 C08", "note": ENUM_NOTE + " pion/sdp Unmarshal->Marshal is the normal form of untouched fields; the proxy's sendAnswer call site is covered by reading only.",
+}
+CHECKS["C13"] = {
+    "script": "c13.py", "category": "exploration", "engine": "enum",
+    "technique": "bounded-exhaustive enumeration of a JSON value lattice through the real deserialiser and its real callers (client Negotiate, proxy pollOffer, remoteIPFromSDP)",
+    "text": "Members type/sdp each over 24 JSON values x each other, top-level shapes, duplicate keys, truncations: value or error, never panic - directly and through BrokerChannel.Negotiate (scripted rendezvous) and SignalingServer.pollOffer (scripted transport); round trip for 4 types x 10 SDP texts; remoteIPFromSDP over candidate/c= grammars, truncations and hostile strings.",
+    "design_ref": "§3 C13", "note": ENUM_NOTE + " Callers are driven in-process, not as separate binaries.",
+}
+CHECKS["C18"] = {
+    "script": "c18.py", "category": "model_checking", "engine": "enum",
+    "technique": "explicit-state search to a fixpoint over Set sequences on the real ring map + enumeration of a client_ip grammar against a net/netip reference",
+    "text": "Ring map: capacities 0..3 x 4 ClientIDs x 2 addresses, all reachable canonical states (fixpoint), Get of every id compared with the reference 'latest of the last cap Sets' in every state; sanitiser: ~200 client_ip spellings (zones, ports, brackets, leading zeros, mapped/unspecified, garbage, very long) against netip; remoteIPFromSDP against a reference.",
+    "design_ref": "§3 C18", "note": ENUM_NOTE + " Attribution of interleaved carriers to sessions is covered by the C05 harness.",
+}
+
 PENDING = {}
 ALL = ["C%02d" % i for i in range(1, 21)]
 
